@@ -546,7 +546,7 @@ def rand_scenario(rng):
     if leaf_kind in ("endpoint", "pattern", "default"):
         leaf = (leaf_kind, rand_beh(rng))
     elif leaf_kind == "pre":
-        leaf = ("pre", rng.choice([1, 2, 3]))
+        leaf = ("pre", rng.choice([1, 2, 3, 4, 5]))
     else:
         leaf = (leaf_kind,)
     if leaf_kind in ("file", "dir", "403", "debugroot") and \
